@@ -24,6 +24,22 @@ pub fn total(bytes: &[u8], from: Option<Fmt>, to: Fmt, sched: &Sched) -> Result<
     if let Verdict::Panic(p) = &r.verdict {
         return Err(format!("[{} -> {}] reader[{}] input panicked: {}", opt_name(from), to.name(), sched.class(), p));
     }
+    // and with an output that stops accepting bytes somewhere (offset drawn from
+    // the case itself): the failure must come back as an error as well
+    if !r.out.is_empty() && r.out.len() <= 1 << 20 {
+        let k = (hash_bytes(&[bytes, to.name().as_bytes()]) % r.out.len() as u64) as usize;
+        for slice_input in [false, true] {
+            let mut w = FaultWriter::new(Some(k), None);
+            let v = if slice_input {
+                guarded(|| xt::translate_slice(bytes, from.map(Fmt::xt), to.xt(), &mut w))
+            } else {
+                guarded(|| xt::translate_reader(SchedReader::new(bytes, sched.clone()), from.map(Fmt::xt), to.xt(), &mut w))
+            };
+            if let Verdict::Panic(p) = &v {
+                return Err(format!("[{} -> {}] {} input with a writer failing at byte {} panicked: {}", opt_name(from), to.name(), if slice_input { "slice" } else { "reader" }, k, p));
+            }
+        }
+    }
     Ok((s, r))
 }
 
